@@ -334,4 +334,90 @@ theorem stripLines_unigen (vals : List Clause) (nv : Nat) (support : List Int) :
   simp only []
   rw [stripLines_cons _ (by simp [headerLine]), rstrip_append_empty]
 
+theorem midLines_skip (support : List Int) : ∀ l ∈ midLines support, l = [] ∨ ∃ t, l = Tok.c :: t := by
+  intro l hl
+  unfold midLines at hl
+  split at hl
+  · simp at hl; exact Or.inl hl
+  · simp only [supportLines, List.mem_map] at hl
+    obtain ⟨ch, -, rfl⟩ := hl
+    exact Or.inr ⟨_, rfl⟩
+
+theorem parsePycrypto_unigen (vals : List Clause) (nv : Nat) (support : List Int)
+    (h : ∀ c ∈ vals, c ≠ [] ∧ ∀ l ∈ c, l ≠ 0) :
+    parsePycrypto (unigenLines vals nv support) = .ok (vals.reverse, (nv : Int)) := by
+  unfold parsePycrypto
+  rw [unigenLines_eq, headerLine, parsePycryptoGo_header, List.append_assoc,
+    parsePycryptoGo_skip _ (midLines_skip support)]
+  unfold cnfLines
+  rw [parsePycryptoGo_clauseLines _ (fun c hc => h c (List.mem_reverse.1 hc)),
+    parsePycryptoGo_nil_line]
+  simp [parsePycryptoGo]
+
+theorem parseCnfGo_empties (E : List Line) (hE : ∀ e ∈ E, e = []) (rest : List Line) (acc : Parsed) :
+    parseCnfGo (E ++ rest) acc = parseCnfGo rest acc := by
+  induction E with
+  | nil => rfl
+  | cons e es ih =>
+    have := hE e (by simp)
+    subst this
+    rw [List.cons_append, parseCnfGo_nil_line, ih (fun e' he' => hE e' (by simp [he']))]
+
+theorem update_unigen (vals : List Clause) (nv sup : Nat) (sol : List Int)
+    (h : ∀ c ∈ vals, c ≠ [] ∧ ∀ l ∈ c, l ≠ 0) (hs : sol ≠ [] ∧ ∀ l ∈ sol, l ≠ 0) :
+    ∃ ls', updateFile (stripLines (unigenLines vals nv (rangeSupport sup))) sol = .ok ls' ∧
+      ls'.head? = some (headerLine nv (vals.length + 1)) ∧
+      parseCnfFile ls' = .ok { clauses := vals.reverse ++ [sol.map (fun x => -x)],
+                               sampling := rangeSupport sup, nvars := (nv : Int) } := by
+  obtain ⟨body, E, hE, hstrip, hdec⟩ := stripLines_unigen vals nv (rangeSupport sup)
+  have hnew : sol.map (fun x => Tok.int (-1 * x)) ++ [Tok.int 0]
+      = (sol.map (fun x => -x)).map Tok.int ++ [Tok.int 0] := by
+    rw [List.map_map]
+    congr 1
+    apply List.map_congr_left
+    intro x _
+    simp only [Function.comp]
+    congr 1
+    omega
+  refine ⟨headerLine nv (vals.length + 1) ::
+    (body ++ [(sol.map (fun x => -x)).map Tok.int ++ [Tok.int 0]]), ?_, rfl, ?_⟩
+  · rw [hstrip, ← hnew]
+    simp [updateFile, headerLine]
+  · -- the body parses to the old clauses and the support
+    have hbody : ∀ acc : Parsed, parseCnfGo body acc =
+        .ok { acc with sampling := acc.sampling ++ rangeSupport sup,
+                       clauses := acc.clauses ++ vals.reverse } := by
+      intro acc
+      have h1 := parseCnfGo_unigen_body vals (rangeSupport sup) h (rangeSupport_ne_zero sup) [] acc
+      rw [List.append_nil] at h1
+      have hdec' : midLines (rangeSupport sup) ++ cnfLines vals = body ++ E := hdec
+      rw [hdec', parseCnfGo_append] at h1
+      cases hb : parseCnfGo body acc with
+      | error e => rw [hb] at h1; simp [parseCnfGo] at h1
+      | ok a =>
+        rw [hb] at h1
+        simp only [] at h1
+        have h2 := parseCnfGo_empties E hE [] a
+        rw [List.append_nil] at h2
+        rw [h2] at h1
+        simp only [parseCnfGo] at h1
+        exact h1
+    have hsol : ∀ c ∈ [sol.map (fun x => -x)], c ≠ [] ∧ ∀ l ∈ c, l ≠ 0 := by
+      intro c hc
+      simp only [List.mem_singleton] at hc
+      subst hc
+      refine ⟨by simpa using hs.1, ?_⟩
+      intro l hl
+      simp only [List.mem_map] at hl
+      obtain ⟨x, hx, rfl⟩ := hl
+      have := hs.2 x hx
+      omega
+    have hlast := parseCnfGo_clauseLines [sol.map (fun x => -x)] hsol []
+    simp only [List.map_cons, List.map_nil, List.append_nil] at hlast
+    unfold parseCnfFile
+    rw [headerLine, parseCnfGo_header, parseCnfGo_append, hbody]
+    simp only []
+    rw [hlast]
+    simp [parseCnfGo, sortedSet_of_sorted _ (rangeSupport_sorted sup)]
+
 end SPModel.Text
